@@ -27,7 +27,7 @@ TRUSTED = [
 ]
 ASSUMPTIONS = [
     "input substitutions are acyclic (wfs): the graph x -> vars(subst[x]) is well-founded",
-    "identity of types is taken modulo what unify never looks at: input flags of function types (only compared when both inputs are linear) and the copy/drop flags of bound variables; completeness is stated for exact identity",
+    "identity of types is taken modulo what unify never looks at: input flags of function types when at least one of the two input types is copyable at the time of comparison (flags ARE compared whenever both input types are non-copyable, linear or affine) and the copy/drop flags of bound variables; completeness is stated for exact identity",
     "existential variables are identified by id (ids are globally fresh in /repo)",
     "call theorems: parameter types contain no stored comptime args (plain), argument types are closed, every quantified variable occurs in a parameter type; numeric widening (try_coerce_to) makes acceptance order dependent, so exact instance => accepted => instance up to widening",
 ]
